@@ -116,13 +116,30 @@ package desync
 //@ ghost field $skip bool
 //# s.$skip: verification is disabled in s or in a store beneath it
 
+//@ ghost field $gets int
+//# s.$gets: number of GetChunk calls that reached store s
+//@ ghost field $has int
+//# s.$has: number of HasChunk calls that reached store s
+//@ ghost field $lastErr error
+//# s.$lastErr: error answered by the latest GetChunk/HasChunk call on s
+//@ ghost field $lastHas bool
+
 //@ func (s Store) GetChunk(id) (c, err)
 //@   pure
+//@   modifies s.$gets, s.$lastErr
 //@   ensures err == nil ==> c != nil && c.idCalculated && c.id == id && (H(plain(c)) == id || s.$skip)
+//@   ensures s.$gets == old(s.$gets) + 1 && s.$lastErr == err
 
 //@ func (s Store) HasChunk(id) (has, err)
 //@   pure
+//@   modifies s.$has, s.$lastErr, s.$lastHas
 //@   ensures err == nil && has ==> s.$stored[id]
+//@   ensures s.$has == old(s.$has) + 1 && s.$lastErr == err && s.$lastHas == has
+
+//@ func (s Store) Close() (err)
+//@   pure
+//@ func (s Store) String() (r0)
+//@   pure
 
 //@ func (s WriteStore) StoreChunk(c) (err)
 //@   pure
@@ -190,3 +207,108 @@ package desync
 //@   lit 1: assert@loop1.iterend dst.$stored[id]
 //@   lit 1: ghost@loop1.exit $done = true
 //@   lit 1: ensures r0 == nil ==> $done
+
+// ---------------------------------------------------------------------------- C11 / C03: store chains
+
+//@ ghost var $attempts int
+//@ ghost var $last error
+//@ ghost var $snap int
+
+//@ func (r StoreRouter) GetChunk
+//@   prop C11 C03
+//@   ensures @C03 err == nil ==> r0 != nil && r0.idCalculated && r0.id == id
+//@   ensures @C11 is(err, ChunkMissing) ==> as(err, ChunkMissing).ID == id && forall j int :: inrng(r.Stores, j) ==> is(elem(r.Stores, j).$lastErr, ChunkMissing)
+//@   ensures @C11 err == nil ==> exists j int :: inrng(r.Stores, j) && elem(r.Stores, j).$lastErr == nil
+//@   ensures @C11 err != nil && !is(err, ChunkMissing) ==> exists j int :: inrng(r.Stores, j) && elem(r.Stores, j).$lastErr != nil && !is(elem(r.Stores, j).$lastErr, ChunkMissing)
+//@   loop 1: invariant forall j int :: inrng(r.Stores[:$i], j) ==> is(elem(r.Stores, j).$lastErr, ChunkMissing)
+
+//@ func (r StoreRouter) HasChunk
+//@   prop C11
+//@   ensures err == nil && r0 ==> exists j int :: inrng(r.Stores, j) && elem(r.Stores, j).$lastErr == nil && elem(r.Stores, j).$lastHas
+//@   ensures err == nil && !r0 ==> forall j int :: inrng(r.Stores, j) ==> elem(r.Stores, j).$lastErr == nil && !elem(r.Stores, j).$lastHas
+//@   loop 1: invariant forall j int :: inrng(r.Stores[:$i], j) ==> elem(r.Stores, j).$lastErr == nil && !elem(r.Stores, j).$lastHas
+
+//@ func (c Cache) GetChunk
+//@   prop C11 C03
+//@   requires ref(c.l) != ref(c.s)
+//@   ensures @C03 err == nil ==> r0 != nil && r0.idCalculated && r0.id == id && (H(plain(r0)) == id || c.l.$skip || c.s.$skip)
+//@   ensures @C11 c.l.$lastErr == nil ==> err == nil && c.s.$gets == old(c.s.$gets)
+//@   ensures @C11 c.l.$lastErr != nil && !is(c.l.$lastErr, ChunkMissing) ==> err == c.l.$lastErr && c.s.$gets == old(c.s.$gets)
+//@   ensures @C11 is(c.l.$lastErr, ChunkMissing) ==> c.s.$gets == old(c.s.$gets) + 1 && (err == nil ==> c.l.$stored[id]) && (c.s.$lastErr != nil ==> err == c.s.$lastErr)
+
+//@ func (c Cache) HasChunk
+//@   prop C11
+//@   requires ref(c.l) != ref(c.s)
+//@   ensures c.l.$lastErr != nil ==> err == c.l.$lastErr && c.s.$has == old(c.s.$has)
+//@   ensures c.l.$lastErr == nil && c.l.$lastHas ==> r0 && err == nil && c.s.$has == old(c.s.$has)
+//@   ensures c.l.$lastErr == nil && !c.l.$lastHas ==> c.s.$has == old(c.s.$has) + 1 && r0 == c.s.$lastHas && err == c.s.$lastErr
+
+//@ func (r RepairableCache) GetChunk
+//@   prop C11 C03
+//@   ensures @C03 err == nil ==> r0 != nil && r0.idCalculated && r0.id == id && (H(plain(r0)) == id || r.l.$skip)
+//@   ensures @C11 is(r.l.$lastErr, ChunkInvalid) ==> is(err, ChunkMissing) && as(err, ChunkMissing).ID == as(r.l.$lastErr, ChunkInvalid).ID
+//@   ensures @C11 !is(r.l.$lastErr, ChunkInvalid) && (r.l.$lastErr == nil || is(r.l.$lastErr, ChunkMissing)) ==> err == r.l.$lastErr
+
+//@ guard FailoverGroup: active by mu inv 0 <= self.active && self.active < len(self.stores)
+
+//@ func (g *FailoverGroup) current
+//@   prop C11
+//@   requires len(g.stores) > 0
+//@   modifies heap(FailoverGroup.active), heap(FailoverGroup.mu)
+//@   ensures 0 <= r1 && r1 < len(g.stores) && r0 == g.stores[r1]
+
+//@ func (g *FailoverGroup) errorFrom
+//@   prop C11
+//@   requires len(g.stores) > 0
+//@   modifies heap(FailoverGroup.active), heap(FailoverGroup.mu), $snap
+//@   ghost@after:Lock $snap = g.active
+//@   ensures g.active == $snap || (i == $snap && g.active == ($snap + 1) % len(g.stores))
+
+//@ func (g *FailoverGroup) GetChunk
+//@   prop C11 C03
+//@   requires len(g.stores) > 0
+//@   ghost@entry $attempts = 0
+//@   ghost@entry $last = nil
+//@   ghost@after:GetChunk $attempts = $attempts + 1
+//@   ghost@after:GetChunk $last = $r1
+//@   loop 1: invariant 0 <= i && i <= len(g.stores) && $attempts == i && (i > 0 ==> $last != nil && !is($last, ChunkMissing) && gErr == $last)
+//@   ensures @C11 $attempts <= len(g.stores)
+//@   ensures @C11 len(g.stores) > 0 ==> $attempts >= 1 && err == $last
+//@   ensures @C11 err != nil && !is(err, ChunkMissing) ==> $attempts == len(g.stores)
+//@   ensures @C03 err == nil ==> r0 != nil && r0.idCalculated && r0.id == id
+
+//@ func (g *FailoverGroup) HasChunk
+//@   prop C11
+//@   requires len(g.stores) > 0
+//@   ghost@entry $attempts = 0
+//@   ghost@entry $last = nil
+//@   ghost@after:HasChunk $attempts = $attempts + 1
+//@   ghost@after:HasChunk $last = $r1
+//@   loop 1: invariant 0 <= i && i <= len(g.stores) && $attempts == i && (i > 0 ==> $last != nil && gErr == $last)
+//@   ensures $attempts <= len(g.stores)
+//@   ensures len(g.stores) > 0 ==> $attempts >= 1 && err == $last
+//@   ensures err != nil ==> $attempts == len(g.stores)
+
+//@ guard SwapStore: s by mu
+//@ guard SwapWriteStore: SwapStore.s by SwapStore.mu
+
+//@ func (s *SwapStore) GetChunk
+//@   prop C11 C03
+//@   ensures @C03 err == nil ==> r0 != nil && r0.idCalculated && r0.id == id
+
+//@ func (s *SwapStore) HasChunk
+//@   prop C11
+
+//@ func (s *SwapStore) Close
+//@   prop C11
+
+//@ func (s *SwapStore) String
+//@   prop C11
+
+//@ func (s *SwapStore) Swap
+//@   prop C11
+//@   ensures err == nil ==> s.s == new
+
+//@ func (s *SwapWriteStore) StoreChunk
+//@   prop C11
+//@   nochecks panic
